@@ -4,7 +4,7 @@ import numpy as np
 from harness.checks import swcio
 
 RULE = ("cases = every well-formed topology (all numberings, root 0) up to the bound x every comment list over the comment pool "
-        "(empty, whitespace-only, leading blanks, look-alikes of data rows and of the source header), with id offsets {0,1,2,9,1000}, "
+        "(empty, whitespace-only, leading blanks, look-alikes of data rows and of the source header), with id offsets {0,1,2,9,1000} (free cases: up to 2*10^9, beyond what a float32 holds exactly), "
         "source header {off, default, given}, comments on/off and source kind {text, bytes, path} assigned round-robin; coordinates cover "
         "rounding up/down across a unit and negative values that round to zero; two generations (write, read, write, read); the written "
         "text itself is compared line by line with the writer specification; non-trivial = at least 2 nodes or a comment; "
@@ -52,7 +52,7 @@ def free_cases(ctx, count, big):
         v = [[absval(x) for x in row] for row in fv]
         com = [list(rng.choice(pool)) for _ in range(rng.randint(0, 4))]
         out.append({"op": "roundtrip", "t": {"P": P, "ty": [rng.randrange(0, 12) for _ in range(n)], "v": v, "com": com},
-                    "fvals": [[float(x) for x in row] for row in fv], "off": rng.choice([0, 1, 2, 9, 1000, 123456]),
+                    "fvals": [[float(x) for x in row] for row in fv], "off": rng.choice([0, 1, 2, 9, 1000, 123456, 16777216, 16777219, 1000000007, 2000000000]),
                     "src": rng.choice(["", "Unknown", "s", "my file.swc"]), "wc": rng.random() < 0.8, "kind": rng.randrange(3)})
     return out
 
@@ -80,7 +80,7 @@ def big_cases(ctx, count):
                 row.append(v)
             fv.append(row)
         out.append({"op": "roundtrip_big", "t": {"P": P, "ty": [rng.randrange(0, 8) for _ in range(n)], "v": [[swcio.bigval(x) for x in row] for row in fv], "com": []},
-                    "fvals": fv, "off": rng.choice([0, 1, 7]), "kind": rng.randrange(3)})
+                    "fvals": fv, "off": rng.choice([0, 1, 7, 16777216, 2000000000]), "kind": rng.randrange(3)})
     return out
 
 
